@@ -219,6 +219,12 @@ Definition at_index (len : Z) (a : jsnum) : Z :=
   let idx := if idx <? 0 then wrap64 (len + idx) else idx in
   if (len <=? idx) || (idx <? 0) then -1 else idx.
 
+(* [0..len-1].slice(0, a).length: ToInteger then builtin_array.go relToIdx (rel >= 0 ? min(rel,l) : max(l+rel,0));
+   with a numeric STRING argument this is the ToInteger of strings that fix 091119a made clip *)
+Definition slice_end (len : Z) (a : jsnum) : Z :=
+  let rel := toInteger a in
+  if 0 <=? rel then Z.min rel len else Z.max (wrap64 (len + rel)) 0.
+
 (* ------------------------------------------------------------------------------------------ *)
 (* I: operators (vm.go:1258-1830), on Number operands *)
 
@@ -277,8 +283,8 @@ Definition op_mod (a b : jsnum) : jsnum :=
 Definition op_neg (a : jsnum) : jsnum :=
   match toNumeric a with
   | NInt n => if n =? 0 then NFlt fnegzero else NInt (wrap64 (- n))
-  | NFlt _ =>
-      let f := to_float a in           (* operand.ToFloat(); floatToValue since fix 03125f6 *)
+  | NFlt f =>                          (* n.ToFloat() of the toNumeric result (fix c4422a6: one conversion);
+                                         floatToValue since fix 03125f6 *)
       floatToValue (if is_nan f then f else fneg f)
   end.
 
@@ -467,6 +473,12 @@ Definition ToLength_spec (x : f64) : Z :=
   | None => if sign_bit x then 0 else two53 - 1
   end.
 
+Definition slice_end_spec (len : Z) (x : f64) : Z :=      (* relative end of Array.prototype.slice *)
+  match ToIntegerOrInf_spec x with
+  | Some k => if k <? 0 then Z.max (len + k) 0 else Z.min k len
+  | None => if sign_bit x then 0 else len
+  end.
+
 Definition at_spec (len : Z) (x : f64) : Z :=
   match ToIntegerOrInf_spec x with
   | Some k => let k := if 0 <=? k then k else len + k in
@@ -496,7 +508,7 @@ Definition spec_sign (x : f64) : f64 :=
 
 Inductive unop := UNeg | UPlus | UInc | UDec | UBnot | UAbs | UFloor | UCeil | UTrunc | URound | USign
   | UFround | USqrt | UClz32 | UInt8 | UUint8 | UClamp | UInt16 | UUint16 | UInt32 | UUint32
-  | UOr0 | UShr0 | ULength | UAt8 | UF64.
+  | UOr0 | UShr0 | ULength | UAt8 | UF64 | USlice8.
 Inductive binop := BAdd | BSub | BMul | BDiv | BMod | BAnd | BOr | BXor | BShl | BSar | BShr
   | BImul | BMax | BMin.
 
@@ -527,6 +539,7 @@ Definition S_un (o : unop) (a : jsnum) : jsnum :=
   | UUint32 | UShr0 => int (ToUint32_spec x)
   | ULength => int (ToLength_spec x)
   | UAt8 => int (at_spec 8 x)
+  | USlice8 => int (slice_end_spec 8 x)
   end.
 
 Definition I_un (o : unop) (a : jsnum) : jsnum :=
@@ -557,6 +570,7 @@ Definition I_un (o : unop) (a : jsnum) : jsnum :=
   | UShr0 => op_shr a (NInt 0)
   | ULength => intToValue (toLength a)
   | UAt8 => intToValue (at_index 8 a)
+  | USlice8 => intToValue (slice_end 8 a)
   end.
 
 Definition S_bin (o : binop) (a b : jsnum) : jsnum :=
